@@ -105,7 +105,10 @@ def run(chk):
             same_addr = bool(asn) and key is not None and panics._strip(asn[0][2][0]) == panics._strip(key)
             chk.ob("R2.disconnect", fn, "the disconnect handler gets the closed client's address (marked disconnected)", same_addr, "", where=b.where(blk))
         # heartbeat timeout edge
-        ge = [(blk, t2) for blk, t2 in b.calls_to(r"PartialOrd::ge$|PartialOrd::gt$") if desc_contains(describe(prog, b, t2["args"][0]), lambda y: y[0] == "call" and y[1].endswith("Instant::elapsed"))]
+        lpi = next((i for i, x in enumerate(prog.structs.get("humphrey_ws::stream::WebsocketStream", {}).get("fields", [])) if x["name"] == "last_pong"), None)
+        # (the comparison of last_pong's age with the timeout — not the "is a ping due" test on last_ping)
+        ge = [(blk, t2) for blk, t2 in b.calls_to(r"PartialOrd::ge$|PartialOrd::gt$")
+              if desc_contains(describe(prog, b, t2["args"][0]), lambda y: y[0] == "call" and y[1].endswith("Instant::elapsed") and desc_contains(y[2], lambda z: z[0] == "field" and z[2] == lpi))]
         chk.floor("heartbeat timeout test", len(ge), 1)
         for blk, t2 in ge:
             sw = core.bool_test_of_call(b, blk)
@@ -117,11 +120,20 @@ def run(chk):
                 w = core.must_pass(b, [sw[1]], removes, through_nodes=dex, through_edges=unset.get("on_disconnect", set()), after_from=False)
                 chk.ob("R2.disconnect", fn, "heartbeat timeout -> disconnect handler dispatched (or unset)", w is None, "", path=w, where=b.where(blk))
     # ---- R3 incoming
-    inc_next = []
-    for blk, t in b.calls_to(r"Iterator>::next$|Iterator::next$"):
-        d = describe(prog, b, t["args"][0])
-        if desc_contains(d, lambda y: y[0] == "call" and y[1].endswith("Receiver::<T>::try_iter") and desc_contains(y[2], lambda z: z[0] == "field" and z[2] == ix["incoming_streams"])):
-            inc_next.append(blk)
+    def drain_sites(field):
+        """(block, label of the 'got one' edge): next() over try_iter() of the receiver field, or try_recv() on it (`while let Ok(..)`)."""
+        out = []
+        for blk, t in b.calls_to(r"Iterator>::next$|Iterator::next$"):
+            d = describe(prog, b, t["args"][0])
+            if desc_contains(d, lambda y: y[0] == "call" and y[1].endswith("Receiver::<T>::try_iter") and desc_contains(y[2], lambda z: z[0] == "field" and z[2] == ix[field])):
+                out.append((blk, "Some"))
+        for blk, t in b.calls_to(r"Receiver::<T>::try_recv$"):
+            if desc_contains(describe(prog, b, t["args"][0]), lambda z: z[0] == "field" and z[2] == ix[field]):
+                out.append((blk, "Ok"))
+        return out
+    inc_sites = drain_sites("incoming_streams")
+    inc_next = [x for x, _ in inc_sites]
+    got = dict(inc_sites)
     chk.floor("incoming stream iteration", len(inc_next), 1)
     for nb in inc_next:
         inserts = []
@@ -132,11 +144,17 @@ def run(chk):
                 chk.ob("R3.connect", fn, "accepted stream is stored under its own peer address", from_next(k) and from_next(v), f"insert({panics.short_desc(k)}, {panics.short_desc(v)})", where=b.where(blk))
                 if from_next(k) and from_next(v):
                     inserts.append(blk)
-        for (s, tgt) in some_edge_of(prog, b, nb, "Some"):
-            w = core.must_pass(b, [tgt], [nb] + core.return_blocks(b), through_nodes=inserts, after_from=False)
+        # a stream whose peer address cannot be read is skipped (by the filter_map adaptor, or by an explicit `Err(_) => continue`)
+        skip_edges = set()
+        for pb, pt in b.calls_to(r"peer_addr$"):
+            if desc_contains(describe(prog, b, pt["args"][0]), lambda y: y[0] == "call" and len(y) > 3 and y[3] == nb):
+                for e in some_edge_of(prog, b, pb, "Err"):
+                    skip_edges.add(e)
+        for (s, tgt) in some_edge_of(prog, b, nb, got[nb]):
+            w = core.must_pass(b, [tgt], [nb] + core.return_blocks(b), through_nodes=inserts, through_edges=skip_edges, after_from=False)
             chk.ob("R3.connect", fn, "every accepted stream reaches streams.insert", w is None, "an accepted client is dropped", path=w)
             cex = [blk for blk, cl in execs.get("on_connect", [])]
-            w = core.must_pass(b, [tgt], [nb] + core.return_blocks(b), through_nodes=cex, through_edges=unset.get("on_connect", set()), after_from=False)
+            w = core.must_pass(b, [tgt], [nb] + core.return_blocks(b), through_nodes=cex, through_edges=set(unset.get("on_connect", set())) | skip_edges, after_from=False)
             chk.ob("R3.connect", fn, "every accepted stream gets one connect dispatch (or handler unset)", w is None, "", path=w)
         for blk, cl in execs.get("on_connect", []):
             seen = b.reachable(b.succs(blk), removed_nodes={nb})
@@ -145,11 +163,7 @@ def run(chk):
             chk.ob("R3.connect", fn, "the connect handler gets the new client's address", bool(asn) and desc_contains(asn[0][2][0], lambda y: y[0] == "call" and len(y) > 3 and y[3] == nb), "")
     # the filter keeps a stream only together with its own address
     # ---- R4 outgoing
-    out_next = []
-    for blk, t in b.calls_to(r"Iterator>::next$|Iterator::next$"):
-        d = describe(prog, b, t["args"][0])
-        if desc_contains(d, lambda y: y[0] == "call" and y[1].endswith("Receiver::<T>::try_iter") and desc_contains(y[2], lambda z: z[0] == "field" and z[2] == ix["outgoing_messages"])):
-            out_next.append(blk)
+    out_next = [x for x, _ in drain_sites("outgoing_messages")]
     chk.floor("outgoing message iteration", len(out_next), 1)
     for blk, t in b.calls_to(r"WebsocketStream::send$"):
         recv_d = describe(prog, b, t["args"][0])
@@ -164,7 +178,24 @@ def run(chk):
         chk.ob("R4.unicast", fn, "unicast: streams.get_mut(<address in the message>).send(<that message>)", ok, f"{panics.short_desc(recv_d)}", where=b.where(blk))
     chk.floor("unicast send site", len(b.calls_to(r"WebsocketStream::send$")), 1)
     bc = b.calls_to(r"WebsocketStream::send_raw$")
-    chk.floor("broadcast send site", len(bc), 1)
+    # `for stream in values_mut() { stream.send_raw(..) }`, or `values_mut().for_each(|stream| stream.send_raw(..))`
+    bc_cl = []
+    for blk, t in b.calls_to(r"Iterator::for_each$"):
+        cd = describe(prog, b, t["args"][1])
+        if cd[0] == "closure" and cd[1] in prog.bodies and prog.bodies[cd[1]].calls_to(r"WebsocketStream::send_raw$"):
+            bc_cl.append((blk, t, prog.bodies[cd[1]]))
+    chk.floor("broadcast send site", len(bc) + len(bc_cl), 1)
+    for blk, t, cb in bc_cl:
+        recv_d = describe(prog, b, t["args"][0])
+        ok = desc_contains(recv_d, lambda y: y[0] == "call" and y[1].endswith("HashMap::<K, V, S, A>::values_mut") and on_streams(y[2][0])) and \
+            not desc_contains(recv_d, lambda y: y[0] == "call" and core.re.search(r"::(take|skip|filter|step_by|nth|take_while|skip_while)$", y[1]) is not None)
+        labs = [lab for s, lab, d, info in core.guards_dominating(prog, b, blk) if lab in ("Message", "Broadcast")]
+        chk.ob("R4.broadcast", fn, "broadcast: every stream in self.streams", ok and labs == ["Broadcast"], f"{panics.short_desc(recv_d)} under {labs}", where=b.where(blk))
+        for sb, st_ in cb.calls_to(r"WebsocketStream::send_raw$"):
+            data = core.describe_r(prog, cb, st_["args"][1])
+            chk.ob("R4.broadcast", fn, "broadcast data is the message's serialised frame", desc_contains(data, lambda y: y[0] == "call" and y[1].endswith("Message::to_frame")), f"{panics.short_desc(data)}")
+            who = core.describe(prog, cb, st_["args"][0])
+            chk.ob("R4.broadcast", fn, "each visited stream is the one sent to", desc_contains(who, lambda y: y[0] == "param"), f"{panics.short_desc(who)}")
     for blk, t in bc:
         recv_d = describe(prog, b, t["args"][0])
         ok = desc_contains(recv_d, lambda y: y[0] == "call" and y[1].endswith("HashMap::<K, V, S, A>::values_mut") and on_streams(y[2][0])) and \
